@@ -19,6 +19,7 @@ for sid, info in sorted(table.items()):
         "breaks": info["breaks"],
         "needs_to_manifest": info["needs"],
         "origin": "written by an independent sub-agent given only the property text and a scratch worktree",
+        "repo_commit_patch_was_confirmed_against": ev.get("repo_commit", info.get("base_commit", "")),
         "confirmed": {
             "demo_exit_on_unchanged_tree": ev.get("demo_clean_rc"),
             "demo_exit_with_patch": ev.get("demo_patched_rc"),
